@@ -2,7 +2,8 @@
    Only statements, [exact], Print Assumptions and Examples live here.
    Model: Model/Sparse.v (sparse-file.go). *)
 From Coq Require Import List NArith ZArith Arith.
-From DS Require Import Base.Bytes Base.Hash Base.Sched Model.ReadSeeker Model.Sparse Proofs.SparseProofs.
+From DS Require Import Base.Bytes Base.Hash Base.Sched Model.ReadSeeker Model.Sparse Model.SparsePre Model.SparseOnce
+     Proofs.SparseProofs.
 Import ListNotations.
 Local Open Scope Z_scope.
 
@@ -32,27 +33,28 @@ Print Assumptions C10_index_range_covers.
 
 (* sparse_inv.  A schedule is any list of labels: one atomic step of goroutine k (reader, preload worker or
    WriteState caller), a new request handed to a goroutine (creating it if needed), or a restart of the process at
-   any moment -- a kill included -- with any combination of {state file readable or not, cache file kept / absent /
-   resized, preload}.  [step_paired] only excludes loading a state file that outlived a lost cache file (the
-   property's premise: the cache file together with ITS saved state).  For EVERY such schedule, every fault pattern
-   of a sound store and any number of goroutines the loader invariant holds (or H collides): a set done bit or a null
-   chunk means the range holds the chunk; the saved state never claims more than the file holds; every completed
-   ReadAt returned the blob's bytes. *)
+   any moment -- a kill of the running process included -- with any combination of {state file readable or not,
+   cache file kept / deleted / truncated or extended, preload}.  These are all the restarts the code can perform on
+   what it and such events left behind; NewSparseFile itself is one atomic step, and an external party REPLACING THE
+   CONTENT of the cache or state file is not a label.  For EVERY schedule, every fault pattern of a sound store and
+   any number of goroutines the loader invariant holds (or H collides): a set done bit or a null chunk means the range
+   holds the chunk; the saved state never claims more than the cache file holds (start-up rewrites the state whenever
+   it does not load it); every completed ReadAt returned the blob's bytes. *)
 Theorem C10_sparse_inv : forall H idx blob maxsz store sched,
   index_describes H idx blob -> store_sound H store ->
   let nullid := snd (new_null_chunk H maxsz) in
-  loader_inv idx nullid blob (run (step_paired idx nullid store) sched (init idx)) \/ Collision H.
+  loader_inv idx nullid blob (run (step idx nullid store) sched (init idx)) \/ Collision H.
 Proof. exact sparse_inv. Qed.
 Print Assumptions C10_sparse_inv.
 
 (* sparse_read_sound.  Spelled out for one ReadAt: whatever happened before and concurrently (interleavings,
-   transient store failures, WriteState at any point, restarts, preload), a ReadAt(len, off) that reports success
-   (nil or io.EOF) returned exactly blob[off, off+n) with n = min(len, L-off) and io.EOF iff n < len -- never the
-   zeros of an unpopulated range. *)
+   transient store failures, WriteState at any point, every restart of the kind above, preload), a ReadAt(len, off)
+   that reports success (nil or io.EOF) returned exactly blob[off, off+n) with n = min(len, L-off) and io.EOF iff
+   n < len -- never the zeros of an unpopulated range.  No premise on the schedule. *)
 Theorem C10_sparse_read_sound : forall H idx blob maxsz store sched off len d eof,
   index_describes H idx blob -> store_sound H store ->
   let nullid := snd (new_null_chunk H maxsz) in
-  In (RqRead off len, ROk d eof) (s_log (run (step_paired idx nullid store) sched (init idx))) ->
+  In (RqRead off len, ROk d eof) (s_log (run (step idx nullid store) sched (init idx))) ->
   off + Z.of_nat len < two64 ->
   (0 <= off /\ d = slice blob (Z.to_nat off) (length d) /\
    length d = Nat.min len (length blob - Z.to_nat off) /\ eof = (length d <? len)%nat) \/ Collision H.
@@ -91,11 +93,11 @@ Theorem C10_sparse_retry : forall idx nullid store sched off len d eof,
 Proof. exact sparse_retry. Qed.
 Print Assumptions C10_sparse_retry.
 
-(* No index-out-of-range panic for any schedule in which the index has at least one chunk and no ReadAt has an
-   empty buffer.  (Both conditions are needed: C10_zero_length_read_at_eof_panics, C10_empty_index_read_panics.) *)
+(* No index-out-of-range panic: for every index that tiles (the EMPTY one included), every request (empty buffers and
+   offsets at, past or before the ends included), every schedule, store and restart sequence. *)
 Theorem C10_sparse_no_panic : forall idx nullid store sched,
-  tiles_from 0 idx -> idx <> [] ->
-  s_crashed (run (step_nonzero idx nullid store) sched (init idx)) = false.
+  tiles_from 0 idx ->
+  s_crashed (run (step idx nullid store) sched (init idx)) = false.
 Proof. exact sparse_no_panic. Qed.
 Print Assumptions C10_sparse_no_panic.
 
@@ -132,42 +134,54 @@ Example C10_example_retry :
   s_done s = [true; false; false; true].
 Proof. vm_compute. repeat split. Qed.
 
-(* FINDING (zero-length read at the end): indexRange returns first = len(chunks) and loadRange indexes past the end. *)
-Example C10_zero_length_read_at_eof_panics :
-  s_crashed (ex_run [LSubmit 0 (RqRead 7 0); LThread 0]) = true.
-Proof. vm_compute. reflexivity. Qed.
+(* The three defects found by this check on the tree before 2f69527 / 0331e86, as theorems about the PRE-fix model
+   variants (Model/SparsePre.v; bin/check reproduces each on the code with the commit reverted), each next to the same
+   schedule on the current model. *)
+Definition pre_run (fix_range fix_state : bool) (idx : index) (sched : list label) : sstate :=
+  run (step_pre idx ex_null ex_store fix_range fix_state) sched (init idx).
 
-(* FINDING (empty index): every ReadAt indexes an empty bitmap / chunk list. *)
-Example C10_empty_index_read_panics :
-  s_crashed (run (step [] ex_null ex_store) [LSubmit 0 (RqRead 0 1); LThread 0] (init [])) = true /\
-  s_crashed (run (step [] ex_null ex_store) [LSubmit 0 (RqRead 0 0); LThread 0] (init [])) = true.
+(* before 2f69527: a zero-length ReadAt at (or past) the end indexes chunks[len(chunks)] *)
+Theorem C10_zero_length_read_at_eof_refuted :
+  exists sched, s_crashed (pre_run false true ex_idx sched) = true.
+Proof. exists [LSubmit 0 (RqRead 7 0); LThread 0]. vm_compute. reflexivity. Qed.
+Example C10_zero_length_read_at_eof_now :
+  let s := ex_run ([LSubmit 0 (RqRead 7 0)] ++ T0x 8 ++ [LSubmit 0 (RqRead 9 0)] ++ T0x 8) in
+  (* it loads the last chunk: the first attempt meets the store's one failure, no panic either way *)
+  s_crashed s = false /\ s_log s = [(RqRead 9 0, ROk [] false); (RqRead 7 0, RErr (XStore 2))].
 Proof. vm_compute. split; reflexivity. Qed.
 
-(* FINDING (stale state file): populate and save; the cache file is lost; the next start ignores the state (size
-   mismatch) and recreates a blank full-size cache but leaves the state file in place; it is killed before
-   rewriting it; the start after that loads the old state over the blank cache: ReadAt returns zeros with no error. *)
-Example C10_stale_state_returns_zeros :
-  let s := ex_run ([LSubmit 0 (RqRead 0 7)] ++ T0x 12 ++ [LSubmit 0 (RqRead 0 7)] ++ T0x 12 ++ [LSubmit 0 RqSave; LThread 0] ++
-                   [LRestart (mkmode true CAbsent false); LRestart (mkmode true CKeep false);
-                    LSubmit 0 (RqRead 0 7)] ++ T0x 3) in
-  hd_error (s_log s) = Some (RqRead 0 7, ROk [0; 0; 0; 0; 0; 0; 0]%N false) /\ s_stale s = true.
-Proof. vm_compute. split; reflexivity. Qed.
+(* before 2f69527: every ReadAt on an index without chunks indexes the empty bitmap *)
+Theorem C10_empty_index_read_refuted :
+  exists sched, s_crashed (pre_run false true [] sched) = true.
+Proof. exists [LSubmit 0 (RqRead 0 1); LThread 0]. vm_compute. reflexivity. Qed.
+Example C10_empty_index_read_now :
+  let s := run (step [] ex_null ex_store) ([LSubmit 0 (RqRead 0 1); LSubmit 0 (RqRead 0 0); LSubmit 0 (RqRead 3 2)] ++ T0x 6) (init []) in
+  s_crashed s = false /\
+  s_log s = [(RqRead 3 2, ROk [] true); (RqRead 0 0, ROk [] false); (RqRead 0 1, ROk [] true)] /\ s_calls s = 0%nat.
+Proof. vm_compute. repeat split. Qed.
 
-(* ... and that restart is exactly what [step_paired] excludes (so C10_sparse_read_sound does not cover it). *)
-Example C10_stale_load_is_excluded :
-  let s := ex_run ([LSubmit 0 (RqRead 0 7)] ++ T0x 12 ++ [LSubmit 0 (RqRead 0 7)] ++ T0x 12 ++ [LSubmit 0 RqSave; LThread 0] ++
-                   [LRestart (mkmode true CAbsent false)]) in
-  step_paired ex_idx ex_null ex_store s (LRestart (mkmode true CKeep false)) = None /\
-  step_paired ex_idx ex_null ex_store s (LRestart (mkmode false CKeep false)) <> None.
-Proof. vm_compute. split; [reflexivity|discriminate]. Qed.
+(* before 0331e86: populate and save; the cache file is lost; the next start ignores the state (size mismatch) and
+   re-creates a blank full-size cache but leaves the state file in place; it ends without WriteState; the start after
+   that loads the old state over the blank cache: ReadAt returns zeros with no error. *)
+Definition stale_sched : list label :=
+  [LSubmit 0 (RqRead 0 7)] ++ T0x 12 ++ [LSubmit 0 (RqRead 0 7)] ++ T0x 12 ++ [LSubmit 0 RqSave; LThread 0] ++
+  [LRestart (mkmode true CAbsent false); LRestart (mkmode true CKeep false); LSubmit 0 (RqRead 0 7)] ++ T0x 12.
+Theorem C10_stale_state_refuted :
+  exists sched d eof, hd_error (s_log (pre_run true false ex_idx sched)) = Some (RqRead 0 7, ROk d eof) /\
+                      d <> slice ex_blob 0 7.
+Proof. exists stale_sched, [0; 0; 0; 0; 0; 0; 0]%N, false. vm_compute. split; [reflexivity|discriminate]. Qed.
+Example C10_stale_state_now :
+  hd_error (s_log (ex_run stale_sched)) = Some (RqRead 0 7, ROk ex_blob false) /\
+  s_saved (ex_run stale_sched) = Some [false; false; false; false].
+Proof. vm_compute. split; reflexivity. Qed.
 
 (* Two readers on the same range, the first parked between WriteAt and done.Set while the second arrives, a
    WriteState in between (the state must not yet contain the chunk), then a kill and a restart on cache + state:
-   both reads and the read after the restart return the blob's bytes; chunk 3 is fetched exactly once per incarnation
-   in which it was not recorded. *)
+   the reads return the blob's bytes or the store's error; the state saved while the writer was parked does not
+   contain the chunk. *)
 Example C10_example_concurrent :
   let s := ex_run ([LSubmit 0 (RqRead 6 1); LSubmit 1 (RqRead 5 2)] ++ T0x 1 (* scan *) ++ [LThread 1 (* scan *)] ++
-                   T0x 1 (* lock 3: blocked? no, free *) ++ T0x 1 (* fetch fails (call 0) *) ++
+                   T0x 1 (* lock 3 *) ++ T0x 1 (* fetch fails (call 0) *) ++
                    [LSubmit 0 (RqRead 6 1)] ++ T0x 4 (* scan, lock, fetch, write: parked before Set *) ++
                    [LThread 1 (* blocked on mutex 3 *); LSubmit 2 RqSave; LThread 2] ++
                    [LRestart (mkmode true CKeep false); LSubmit 0 (RqRead 6 1)] ++ T0x 6) in
@@ -175,12 +189,10 @@ Example C10_example_concurrent :
   s_saved s = Some [false; false; false; false] /\ s_calls s = 3%nat.
 Proof. vm_compute. repeat split. Qed.
 
-(* sparse_once_refuted: the model of the loader as it was before the fix (Model/SparseOnce.v, sync.Once instead of the
+(* sparse_once_refuted: the model of the loader as it was before e197e04 (Model/SparseOnce.v, sync.Once instead of the
    per-chunk mutex) violates the property: one chunk, the store fails once, read twice -- the second ReadAt reports
-   success and returns the zeros of the unpopulated cache file.  (bin/check reproduces this on the code with the fix
-   commit reverted: class sparse/stale-zeros.) *)
-From DS Require Import Model.SparseOnce.
-Example C10_sparse_once_refuted :
+   success and returns the zeros of the unpopulated cache file. *)
+Theorem C10_sparse_once_refuted :
   exists sched, exists d eof,
     hd_error (s_log (fst (run (step_once ex_idx ex_null ex_store) sched (init_once ex_idx)))) = Some (RqRead 0 2, ROk d eof) /\
     d <> slice ex_blob 0 2.
